@@ -127,7 +127,7 @@ type jEvent struct {
 	// t == "setseq": position the UR-SEQN counter of URR `urr` of session `seid` at `v` (C11: counters far from 0)
 	URR uint32 `json:"urr,omitempty"`
 	V   uint32 `json:"v,omitempty"`
-	// t == "report": every write on the PFCP socket fails while this report is served (monitor-only phases)
+	// every write on the PFCP socket fails while this report / datagram / expiry is served
 	WFail bool `json:"wfail,omitempty"`
 }
 
@@ -1048,7 +1048,17 @@ func runPfcpCase(f *fixture, c jCase) []oEvent {
 				out = append(out, o)
 				return out
 			}
-			_, _ = f.peers[ev.Peer].WriteTo(b, f.upf)
+			if ev.WFail {
+				// handled while every write of the PFCP socket fails; the datagram passes the receiver goroutine and the
+				// channel before the loop takes it: a grace period instead of a hand-shake (if the loop is slower the
+				// response leaves after all and the event is judged as an ordinary one)
+				srv.VerifFailWrites(true)
+				_, _ = f.peers[ev.Peer].WriteTo(b, f.upf)
+				time.Sleep(40 * time.Millisecond)
+				srv.VerifFailWrites(false)
+			} else {
+				_, _ = f.peers[ev.Peer].WriteTo(b, f.upf)
+			}
 		case "raw":
 			b, _ := hex.DecodeString(ev.Raw)
 			_, _ = f.peers[ev.Peer].WriteTo(b, f.upf)
@@ -1088,12 +1098,19 @@ func runPfcpCase(f *fixture, c jCase) []oEvent {
 			if ev.Tx {
 				tt = pfcp.TX
 			}
+			if ev.WFail {
+				srv.VerifFailWrites(true)
+			}
 			srv.NotifyTransTimeout(tt, fmt.Sprintf("%s-%d", peerAddr(f.prefix, ev.Peer), ev.Seq))
 			for j := 0; j < 20000; j++ {
 				if _, _, n := srv.VerifChanLens(); n == 0 {
 					break
 				}
 				time.Sleep(50 * time.Microsecond)
+			}
+			if ev.WFail {
+				time.Sleep(30 * time.Millisecond)
+				srv.VerifFailWrites(false)
 			}
 		}
 		alive := f.barrierRT(2 * time.Second)
